@@ -16,8 +16,21 @@
 
 struct c19_env C19;
 
+static int c19_read(vbi_capture *, vbi_capture_buffer **, vbi_capture_buffer **, const struct timeval *);
+static vbi_raw_decoder *c19_parameters(vbi_capture *);
+static unsigned int c19_update_services(vbi_capture *, vbi_bool, vbi_bool, unsigned int, int, char **);
+static int c19_get_scanning(vbi_capture *);
+static void c19_flush(vbi_capture *);
+static int c19_get_fd(vbi_capture *);
+static VBI_CAPTURE_FD_FLAGS c19_get_fd_flags(vbi_capture *);
+static void c19_delete(vbi_capture *);
+
 static vbi_raw_decoder c19_dec;
-static struct vbi_capture c19_cap;
+/* the method table is a constant: the solver then resolves every capture->method() call to one target on every path */
+static struct vbi_capture c19_cap = {
+  .read = c19_read, .parameters = c19_parameters, .update_services = c19_update_services, .get_scanning = c19_get_scanning,
+  .flush = c19_flush, .get_fd = c19_get_fd, .get_fd_flags = c19_get_fd_flags, ._delete = c19_delete
+};
 static int c19_open;
 
 
@@ -162,15 +175,6 @@ static vbi_capture *c19_do_open(int ok)
 {
   assert(!c19_open);                       /* the daemon never opens a device twice */
   if (!ok) return NULL;
-  memset(&c19_cap, 0, sizeof c19_cap);
-  c19_cap.read = c19_read;
-  c19_cap.parameters = c19_parameters;
-  c19_cap.update_services = c19_update_services;
-  c19_cap.get_scanning = c19_get_scanning;
-  c19_cap.flush = c19_flush;
-  c19_cap.get_fd = c19_get_fd;
-  c19_cap.get_fd_flags = c19_get_fd_flags;
-  c19_cap._delete = c19_delete;
   memset(&c19_dec, 0, sizeof c19_dec);
   c19_dec.scanning = C19.dec_scanning;
   c19_dec.start[0] = C19.dec_start[0]; c19_dec.start[1] = C19.dec_start[1];
@@ -234,6 +238,10 @@ int pthread_mutex_unlock(pthread_mutex_t *m)
   return 0;
 }
 int c19_locks_held(void) { unsigned i; int n = 0; for (i = 0; i < 4; i++) n += c19_held[i] != NULL; return n; }
+/* The acquisition thread (devices without select()) is outside the claim and the model device always has select();
+ * symex nevertheless walks into vbi_proxyd_start_acq_thread under an infeasible guard.  No thread is ever spawned: */
+int pthread_create(pthread_t *t, const pthread_attr_t *a, void *(*fn)(void *), void *arg)
+{ (void) t; (void) a; (void) fn; (void) arg; assert(0 && "acquisition thread requested although the device supports select()"); return EAGAIN; }
 #else
 int c19_locks_held(void) { return 0; }
 #endif
